@@ -206,7 +206,10 @@ def _work(args):
         res['skip'] = f'not coercible: {type(e).__name__}'
         return res
     before = copy.deepcopy(arg)
-    with warnings.catch_warnings(record=True) as wl:
+    # ambient configuration: one case in four with the package loggers effective at DEBUG (records formatted and dropped)
+    dbg = common.ambient_debug_for(('c15', k, tuple(defects)))
+    res['debug_log'] = bool(dbg)
+    with common.debug_logging(dbg), warnings.catch_warnings(record=True) as wl:
         warnings.simplefilter('always')
         try:
             out = utils.check_data_consistency(arg)
@@ -241,7 +244,7 @@ def _work(args):
                 res['second'] = f'raised:{type(e).__name__}'
         res['warn2'] = warn_kinds(wl2)
     # chunk construction must agree with the check
-    with warnings.catch_warnings():
+    with common.debug_logging(dbg), warnings.catch_warnings():
         warnings.simplefilter('ignore')
         try:
             CeiloChunk(arg)
